@@ -46,17 +46,67 @@ var specPreludes = map[string]string{
 var specPreludeOrder = []string{"unwrap", "strlen", "crcU"}
 
 // BuildQuery renders an obligation as a self-contained SMT-LIB script.
-func (o *Obl) BuildQuery() string {
+func (o *Obl) BuildQuery() string { return o.buildQuery(false) }
+
+// BuildSlicedQuery keeps only the path-condition conjuncts in the cone of
+// influence of the goal (sharing declared symbols transitively). Dropping
+// assumptions is a sound weakening for proving; a `sat` answer on the sliced
+// query is re-checked on the full one.
+func (o *Obl) BuildSlicedQuery() string { return o.buildQuery(true) }
+
+func (o *Obl) buildQuery(slice bool) string {
 	e := o.Exec
 	var body strings.Builder
 	used := map[string]bool{}
 	asserts := []string{}
-	for _, t := range o.PC {
-		asserts = append(asserts, t.S)
-	}
 	goal := Not(o.Goal)
 	if o.Expect == "sat" {
 		goal = True
+	}
+	if slice && e != nil && o.Expect != "sat" {
+		rel := map[string]bool{}
+		symbolsIn(goal.S, rel)
+		isDecl := func(s string) bool { _, ok := e.decls[s]; return ok }
+		syms := make([]map[string]bool, len(o.PC))
+		for i, t := range o.PC {
+			m := map[string]bool{}
+			symbolsIn(t.S, m)
+			syms[i] = m
+		}
+		keep := make([]bool, len(o.PC))
+		for changed := true; changed; {
+			changed = false
+			for i := range o.PC {
+				if keep[i] {
+					continue
+				}
+				hit := false
+				for s := range syms[i] {
+					if rel[s] && isDecl(s) {
+						hit = true
+						break
+					}
+				}
+				if hit {
+					keep[i] = true
+					changed = true
+					for s := range syms[i] {
+						if isDecl(s) {
+							rel[s] = true
+						}
+					}
+				}
+			}
+		}
+		for i, t := range o.PC {
+			if keep[i] {
+				asserts = append(asserts, t.S)
+			}
+		}
+	} else {
+		for _, t := range o.PC {
+			asserts = append(asserts, t.S)
+		}
 	}
 	asserts = append(asserts, goal.S)
 	for _, a := range asserts {
@@ -375,7 +425,7 @@ func SolveAll(obls []*Obl, workDir string, timeoutMs int, all bool) {
 					return
 				}
 			}
-			q := o.BuildQuery()
+			q := o.BuildSlicedQuery()
 			o.Query = q
 			f := filepath.Join(workDir, fmt.Sprintf("q%05d.smt2", i))
 			os.WriteFile(f, []byte(q), 0644)
@@ -406,6 +456,31 @@ func SolveAll(obls []*Obl, workDir string, timeoutMs int, all bool) {
 				case "unsat":
 					o.Status = "proved"
 				case "sat":
+					// re-check on the unsliced query before refuting
+					fq := o.BuildQuery()
+					if fq != q {
+						os.WriteFile(f, []byte(fq), 0644)
+						pf2 := ""
+						if pq := PreInstantiate(fq, 3); pq != "" {
+							pf2 = filepath.Join(workDir, fmt.Sprintf("q%05d.pre2.smt2", i))
+							os.WriteFile(pf2, []byte(pq), 0644)
+							defer os.Remove(pf2)
+						}
+						r2 := runPortfolio(f, pf2, timeoutMs, false)
+						o.Query = fq
+						q = fq
+						o.Backend, o.Ms = r2.backend, o.Ms+r2.ms
+						if r2.status == "unsat" {
+							o.Status = "proved"
+							break
+						}
+						if r2.status != "sat" {
+							o.Status = "unknown"
+							o.Model = r2.output
+							break
+						}
+						r = r2
+					}
 					o.Status = "refuted"
 					o.Model = getModel(q, r.backend, workDir+fmt.Sprintf("/m%05d", i))
 				default:
